@@ -1056,7 +1056,7 @@ def crosscheck(ctx, pairs):
 
 
 def replay(ctx, obj):
-    r = obj["replay"]
+    r = obj["replay"] if "replay" in obj else obj          # a replay file of a violation, or a corpus file
     case = r.get("case") if isinstance(r.get("input"), str) else r.get("input")
     case = load_case(case)
     rr = real_run(case)
